@@ -48,4 +48,39 @@ theorem barycentric2_eq (t : Tri2 K) (lo hi : model2d.Coord K) (p : V2 K) :
   simp [model2d.Matrix2_InvertInPlaceDet, model2d.Matrix2_Scale, model2d.NewMatrix2Columns,
     model2d.Matrix2_MulColumn]
 
+/-! ### The building blocks of `MapFn`'s nearest-triangle fallback (`Triangle.genericSDF`, `Rect.genericSDF`)
+
+`genericSDF` itself writes through pointers and is outside the translated subset; the functions it is made
+of are regenerated: squared distance, dot product, `Rect.Contains`, and the clamp `c.Min(max).Max(min)`. -/
+
+/-- `Coord.SquaredDist` is `dist2` -/
+theorem squaredDist_eq (a b : V2 K) : model2d.Coord_SquaredDist (g2 a) (g2 b) = dist2 a b := rfl
+
+/-- `Coord.Dot` is `dot2` -/
+theorem dot_eq (a b : V2 K) : model2d.Coord_Dot (g2 a) (g2 b) = dot2 a b := rfl
+
+/-- `Rect.Contains` is `rectContains` -/
+theorem rectContains_eq (r : Rect K) (c : V2 K) :
+    model2d.Rect_Contains ⟨g2 r.lo, g2 r.hi⟩ (g2 c) = rectContains r c := by
+  have h1 : ∀ x lo : K, GenPrelude.feq (GenPrelude.mn x lo) lo = !decide (x < lo) := by
+    intro x lo
+    unfold GenPrelude.feq GenPrelude.mn
+    by_cases h : lo < x
+    · simp [h, not_lt.2 (le_of_lt h)]
+    · simp only [h, if_false]
+      by_cases h2 : x < lo <;> simp [h2]
+  have h2 : ∀ x hi : K, GenPrelude.feq (GenPrelude.mx x hi) hi = !decide (hi < x) := by
+    intro x hi
+    unfold GenPrelude.feq GenPrelude.mx
+    by_cases h : x < hi
+    · simp [h, not_lt.2 (le_of_lt h)]
+    · simp only [h, if_false]
+      by_cases h2 : hi < x <;> simp [h2]
+  simp only [model2d.Rect_Contains, model2d.Coord_Min, model2d.Coord_Max, rectContains, h1, h2, Bool.and_assoc]
+
+/-- the projection `c.Min(r.MaxVal).Max(r.MinVal)` of `Rect.genericSDF` is `clamp1` per coordinate -/
+theorem rectClamp_eq (r : Rect K) (c : V2 K) :
+    model2d.Coord_Max (model2d.Coord_Min (g2 c) (g2 r.hi)) (g2 r.lo) =
+      g2 ⟨clamp1 r.lo.x r.hi.x c.x, clamp1 r.lo.y r.hi.y c.y⟩ := rfl
+
 end M3d.KernelsTie.Param
